@@ -45,6 +45,8 @@ type responseRouter struct {
 	done      <-chan struct{}
 	// gen is the generation of the stream the request was sent on; 0 = not sent (yet)
 	gen uint64
+	// method is the method of the request; a reply must name the same method
+	method string
 }
 
 // send hands the response over to the call. It must not be called with the
@@ -159,6 +161,21 @@ func (c *channel) cancelPendingMsgs(gen uint64) {
 	}
 }
 
+// routeReply routes a message received from the node to the call it answers.
+// The message was decoded as the response type of the method it names; the
+// generated code converts replies to the response type of the call's method
+// without a check, so a message that names another method must not reach it.
+func (c *channel) routeReply(msg *Message) {
+	resp := response{nid: c.node.ID(), msg: msg.Message, err: status.FromProto(msg.Metadata.GetStatus()).Err()}
+	c.responseMut.Lock()
+	router, ok := c.responseRouters[msg.Metadata.MessageID]
+	c.responseMut.Unlock()
+	if ok && router.method != msg.Metadata.Method {
+		resp = response{nid: c.node.ID(), err: status.Errorf(codes.Internal, "gorums: reply for method %q to a request for method %q", msg.Metadata.Method, router.method)}
+	}
+	c.routeResponse(msg.Metadata.MessageID, resp)
+}
+
 func (c *channel) routeResponse(msgID uint64, resp response) {
 	c.responseMut.Lock()
 	router, ok := c.responseRouters[msgID]
@@ -175,7 +192,7 @@ func (c *channel) routeResponse(msgID uint64, resp response) {
 func (c *channel) enqueue(req request, responseChan chan<- response, streaming bool) {
 	if responseChan != nil {
 		c.responseMut.Lock()
-		c.responseRouters[req.msg.Metadata.MessageID] = responseRouter{c: responseChan, streaming: streaming, done: req.done}
+		c.responseRouters[req.msg.Metadata.MessageID] = responseRouter{c: responseChan, streaming: streaming, done: req.done, method: req.msg.Metadata.Method}
 		c.responseMut.Unlock()
 	}
 	// either enqueue the request on the sendQ or respond
@@ -370,8 +387,7 @@ func (c *channel) receiver() {
 			c.reconnect(-1)
 		} else {
 			c.streamMut.RUnlock()
-			err := status.FromProto(resp.Metadata.GetStatus()).Err()
-			c.routeResponse(resp.Metadata.MessageID, response{nid: c.node.ID(), msg: resp.Message, err: err})
+			c.routeReply(resp)
 		}
 
 		select {
